@@ -45,9 +45,10 @@ type RepoAudit struct {
 }
 
 type RepoObs struct {
-	Audits []RepoAudit `json:"audits"`
-	Panic  bool        `json:"panic"`
-	Note   string      `json:"-"`
+	Audits      []RepoAudit `json:"audits"`
+	HeldChanged bool        `json:"heldChanged"` // an envelope handed out earlier no longer holds the bytes it held when it was handed out
+	Panic       bool        `json:"panic"`
+	Note        string      `json:"-"`
 }
 
 // recording wrapper: logs every Fetch (digest) so that "content used before refusal" is observable
@@ -168,6 +169,21 @@ func runSigRepo() int {
 		must(err)
 		defer os.RemoveAll(dir)
 		dir0 = func() string { return dir }
+		if variant != "memory" && mix(*flagSeed, c.ID, "prior")%2 == 1 {
+			// the very same path has held ANOTHER layout earlier in this process (opened through the library, signed into, removed):
+			// a layout is what is at the path now
+			if r0, err := registry.NewOCIRepository(dir, registry.RepositoryOptions{}); err == nil {
+				if st0, err := oci.New(dir); err == nil {
+					if d0, err := oras.PackManifest(ctx, st0, oras.PackManifestVersion1_1, "application/vnd.verif.artifact", oras.PackManifestOptions{
+						ManifestAnnotations: map[string]string{ocispec.AnnotationCreated: "2023-01-01T00:00:00Z", "name": "earlier tenant"}}); err == nil {
+						_, _, _ = r0.PushSignature(ctx, mtJWS, []byte("envelope of the earlier tenant"), d0, map[string]string{"k": "v"})
+						_ = r0.ListSignatures(ctx, d0, func([]ocispec.Descriptor) error { return nil })
+					}
+				}
+			}
+			must(os.RemoveAll(dir))
+			must(os.MkdirAll(dir, 0755))
+		}
 		var target *recTarget
 		open := func() {
 			if variant == "memory" {
@@ -190,6 +206,7 @@ func runSigRepo() int {
 			subjects[s] = d
 		}
 		var items []itemRec
+		var held [][2][]byte
 		for n, it := range in.Items {
 			if (variant == "ociReopen" && n == len(in.Items)/2) || variant == "ociFresh" {
 				open()
@@ -368,6 +385,9 @@ func runSigRepo() int {
 					target.mu.Unlock()
 					b, d, err := repo.FetchSignatureBlob(ctx, r.manifest)
 					res := "refused"
+					if err == nil && len(held) < 64 {
+						held = append(held, [2][]byte{b, append([]byte{}, b...)}) // what was handed out stays the caller's: looked at again at the end
+					}
 					if err == nil {
 						if bytes.Equal(b, r.blob) && d.MediaType == r.mt && d.Digest == digest.FromBytes(r.blob) {
 							res = "ok"
@@ -401,6 +421,11 @@ func runSigRepo() int {
 		}
 		if *flagLie == "listing" && c.ID%97 == 7 && len(obs.Audits) > 0 {
 			obs.Audits[0].Lists["s1"] = append(obs.Audits[0].Lists["s1"], 99)
+		}
+		for _, h := range held {
+			if !bytes.Equal(h[0], h[1]) {
+				obs.HeldChanged = true
+			}
 		}
 		return []traceLine{{ID: c.ID, Variant: variant, In: c.In, Obs: obs, Note: obs.Note}}
 	}
